@@ -350,7 +350,10 @@ class CFG(object):
         """Every path from (just after) `starts` to the chosen exits passes a node of `through`."""
         ex = self.exits(exits) if isinstance(exits, str) else list(exits)
         r = self.reach(starts, blocked=through, include_starts=not after)
-        return not any(e in r for e in ex)
+        res = not any(e in r for e in ex)
+        if QUERY_LOG is not None:
+            QUERY_LOG.append((self, 'must_pass', list(starts), list(through), ex, after, res))
+        return res
 
     def witness_path(self, starts, avoiding, targets, after=True):
         """A path from starts to one of targets avoiding `avoiding` (list of nodes) or None."""
@@ -383,7 +386,10 @@ class CFG(object):
     def dominates(self, doms, targets):
         """Every path from ENTRY to any of `targets` passes a node of `doms`."""
         r = self.reach([self.entry], blocked=doms)
-        return not any(t in r for t in targets)
+        res = not any(t in r for t in targets)
+        if QUERY_LOG is not None:
+            QUERY_LOG.append((self, 'dominates', [self.entry], list(doms), list(targets), False, res))
+        return res
 
     def reaches(self, starts, targets, blocked=(), after=True):
         r = self.reach(starts, blocked=blocked, include_starts=not after)
@@ -435,6 +441,63 @@ def _is_catch_all(h):
     else:
         names = [unparse(h.type)]
     return any(n in ('Exception', 'BaseException') for n in names)
+
+
+QUERY_LOG = None      # set to a list to record must_pass / dominates queries (thorough tier cross-check)
+
+
+def start_query_log():
+    global QUERY_LOG
+    QUERY_LOG = []
+    return QUERY_LOG
+
+
+def crosscheck_queries(log, limit=10000):
+    """Re-decide every logged query by bounded path enumeration (independent of the reachability formulation).
+
+    Returns (checked, truncated, mismatches)."""
+    checked = truncated = 0
+    mismatches = []
+    for cfg, kind, starts, through, targets, after, res in log:
+        through = set(through)
+        targets = set(targets)
+        found_bad = False
+        trunc = False
+        begin = []
+        for s in starts:
+            if after:
+                begin.extend(t for t, lab in s.succs)
+            else:
+                begin.append(s)
+        for b in begin:
+            # depth-first enumeration of paths that avoid `through`; success = reaching a target
+            stack = [(b, frozenset())]
+            seen_states = 0
+            while stack and not found_bad:
+                n, used = stack.pop()
+                seen_states += 1
+                if seen_states > limit:
+                    trunc = True
+                    break
+                if n in through:
+                    continue
+                if n in targets:
+                    found_bad = True
+                    break
+                for t, lab in n.succs:
+                    e = (n.idx, t.idx, lab)
+                    if e not in used:
+                        stack.append((t, used | {e}))
+            if found_bad:
+                break
+        checked += 1
+        if trunc and not found_bad:
+            truncated += 1
+            continue
+        if (not found_bad) != res:
+            mismatches.append('%s query in %s: reachability says %s, path enumeration says %s'
+                              % (kind, getattr(cfg.fn, 'name', '?'), res, not found_bad))
+    return checked, truncated, mismatches
 
 
 _CACHE = {}
